@@ -182,7 +182,7 @@ type Env struct {
 	Files   *protoregistry.Files // for the local service
 }
 
-var svcOf = map[string]string{"b1": "A", "b2": "A", "b4": "A", "b3": "B", "b3x": "B", "bc": "C", "local": "A", "bd": "D", "bd2": "D", "bt": "T", "bh": "D1only"}
+var svcOf = map[string]string{"b1": "A", "b2": "A", "b4": "A", "b3": "B", "b3x": "B", "bc": "C", "local": "A", "bd": "D", "bd2": "D", "bt": "T", "bh": "D1only", "bp": "P"}
 
 // tagOf is the tag the provider's replies carry: b3x is another connection
 // to the server behind b3.
@@ -241,6 +241,29 @@ func NewEnv() (*Env, error) {
 		}
 		bh.SetFiles(fdD)
 		e.Back["bh"] = bh
+	}
+	// bp serves two services with the SAME short name in two files whose
+	// packages are string prefixes of one another (side-by-side API versions,
+	// parent / child packages): vf.rs.P and vf.rs.inner.P
+	{
+		fdP, err := (&vschema.File{Path: "vf/rsp.proto", Pkg: "vf.rs", Services: []vschema.Service{{Name: "P", Methods: []vschema.Method{
+			{Name: "Get", In: "vf.Req", Out: "vf.Rsp", Rule: get("/rs/p/{a}")}}}}}).Build()
+		if err != nil {
+			e.Close()
+			return nil, err
+		}
+		fdPI, err := (&vschema.File{Path: "vf/rsp_inner.proto", Pkg: "vf.rs.inner", Services: []vschema.Service{{Name: "P", Methods: []vschema.Method{
+			{Name: "Get", In: "vf.Req", Out: "vf.Rsp", Rule: get("/rs/pi/{a}")}}}}}).Build()
+		if err != nil {
+			e.Close()
+			return nil, err
+		}
+		bp, err := be.Start("bp", true, be.Svc{SD: fdP.Services().Get(0), Impl: tagged{"bp"}}, be.Svc{SD: fdPI.Services().Get(0), Impl: tagged{"bp"}})
+		if err != nil {
+			e.Close()
+			return nil, err
+		}
+		e.Back["bp"] = bp
 	}
 	if e.Unknown, err = e.Back["b3"].NewConn(); err != nil {
 		e.Close()
